@@ -219,15 +219,19 @@ impl Compactor {
         loop {
             {
                 let tables = self.storage.tables.read().clone();
-                let pin_version = self.storage.version.pin();
                 for (_, table) in tables {
                     if let Some(_guard) = self
                         .storage
                         .txn_mgr
                         .try_lock_for_compaction(table.table_id())
-                        && let Err(err) = self.compact_table(&pin_version.snapshot, table).await
                     {
-                        warn!("failed to compact: {:?}", err);
+                        // Pin the snapshot *after* the table is locked: a deletion committed
+                        // while an earlier table of this pass was being compacted must be seen,
+                        // otherwise the rows it deleted would be written to the new RowSet.
+                        let pin_version = self.storage.version.pin();
+                        if let Err(err) = self.compact_table(&pin_version.snapshot, table).await {
+                            warn!("failed to compact: {:?}", err);
+                        }
                     }
                 }
                 match self.stop.try_recv() {
